@@ -538,7 +538,9 @@ def _grid_eq(ctx, m):
         ('column metadata tag names are compared',
          has_test('set(%s.column[col].keys()) != set(%s.column[col].keys())' % (s, o),
                   'set(%s.column[col].keys()) != set(%s.column[col].keys())' % (o, s),
-                  'set(%s.column[col]) != set(%s.column[col])' % (s, o)),
+                  'set(%s.column[col]) != set(%s.column[col])' % (s, o))
+         or (has_test('len(%s.column[col]) != len(%s.column[col])' % (s, o))
+             and has_test('key not in %s.column[col]' % o)),
          'columns with the same number of metadata tags under different names: %s.column[col][key] raises KeyError instead of '
          'the comparison answering False (or, without any test, an extra tag on one side goes unnoticed)' % o),
         ('every column metadata value is compared',
